@@ -121,6 +121,47 @@ def _convert(seed):
                 {"e": "End"},
             ]
             traces.append({"desc": desc, "events": ev})
+            if rnd.random() < 0.35:
+                # the SAME exchanger object converted again after its flow rate was changed (and its own resistances refreshed):
+                # the conversion must describe the exchanger as it is now
+                fac = rnd.choice([0.5, 2.0])
+                desc2 = dict(desc, reconverted_after_flow_factor=fac)
+                try:
+                    with warnings.catch_warnings(), contextlib.redirect_stdout(io.StringIO()):
+                        warnings.simplefilter("ignore")
+                        orig.m_flow_borehole = orig.m_flow_borehole * fac
+                        if kind == "COAXIAL":
+                            orig.calc_fluid_pipe_resistance()
+                            orig.update_thermal_resistances(orig.R_ff, orig.R_fp)
+                        else:
+                            orig.m_flow_pipe = orig.m_flow_pipe * fac
+                            orig.update_thermal_resistances(orig.calc_fluid_pipe_resistance())
+                        del calls[:]
+                        if kind == "COAXIAL":
+                            _, _, rc, rp = orig.concentric_tube_volumes()
+                            target_ref = 1.0 / (orig.h_f_a_in * 2.0 * math.pi * r_oi) + math.log(r_oo / r_oi) / (2.0 * math.pi * pipe.k[1])
+                        else:
+                            _, _, rc, rp = orig.u_tube_volumes()
+                            target_ref = 1.0 / (orig.h_f * 4 * math.pi * (2.0 * r_in) ** 2) + math.log(r_out / r_in) / (4 * 2.0 * math.pi * pipe.k)
+                        eq = orig.to_single()
+                        rb0 = orig.calc_effective_borehole_resistance()
+                        rb1 = eq.calc_effective_borehole_resistance()
+                        eq.calc_fluid_pipe_resistance()
+                        rfp1 = eq.R_fp
+                        same_flow = abs(eq.m_flow_borehole - orig.m_flow_borehole) <= 1e-12 * orig.m_flow_borehole
+                except Exception as ex:  # noqa: BLE001
+                    traces.append({"desc": desc2, "events": [{"e": "Raised", "type": type(ex).__name__, "msg": str(ex)[:80]}, {"e": "End"}]})
+                    continue
+                vf1 = 2 * math.pi * eq.pipe.r_in**2
+                vp1 = 2 * math.pi * (eq.pipe.r_out**2 - eq.pipe.r_in**2)
+                oc1 = calls[0]["oc"] if len(calls) == 2 else "NotRun"
+                oc2 = calls[1]["oc"] if len(calls) == 2 else "NotRun"
+                traces.append({"desc": desc2, "events": [
+                    {"e": "Volumes", "dvf_ppm": ppm(vf1, vf0), "dvp_ppm": ppm(vp1, vp0), "target_ppm": ppm(rc + rp, target_ref) if same_flow else 999999},
+                    {"e": "Radii"},
+                    {"e": "SolvePipeK", "oc": oc1, "dev_ppm": ppm(rfp1, rc + rp), "kind": kind},
+                    {"e": "SolveGroutK", "oc": oc2, "rb_dev_ppm": ppm(rb1, rb0)},
+                    {"e": "End"}]})
         # a single U-tube converts to itself
         pipe = Pipe(Pipe.place_pipes(0.01856, 0.02108, 1), 0.01702, 0.02108, 0.01856, 1e-6, 0.4, 1542000.0)
         su = bhx.get_bhe_object(BHPipeType.SINGLEUTUBE, 0.3, GHEFluid("water", 0.0, 20.0), GHEBorehole(100.0, 2.0, 0.075, 0.0, 0.0), pipe, Grout(1.0, 3901000.0), Soil(2.0, 2343493.0, 18.3))
